@@ -139,11 +139,22 @@ fn cpu_ticks(pid: u32) -> Option<u64> {
 
 fn drain_err(w: &Worker) -> String {
     let mut lines: Vec<String> = vec![];
-    // give the stderr reader a moment to see EOF
-    while let Ok(l) = w.err_rx.recv_timeout(Duration::from_millis(50)) {
-        lines.push(l);
-        if lines.len() > 400 {
-            lines.remove(0);
+    // read until the stderr reader thread sees EOF (sender dropped), at most ~2 s
+    let deadline = std::time::Instant::now() + Duration::from_secs(2);
+    loop {
+        match w.err_rx.recv_timeout(Duration::from_millis(100)) {
+            Ok(l) => {
+                lines.push(l);
+                if lines.len() > 400 {
+                    lines.remove(0);
+                }
+            }
+            Err(RecvTimeoutError::Disconnected) => break,
+            Err(RecvTimeoutError::Timeout) => {
+                if std::time::Instant::now() > deadline {
+                    break;
+                }
+            }
         }
     }
     let n = lines.len();
